@@ -5,3 +5,7 @@ package sniproxy
 // verifPoint marks a schedule point for the verification harness; it does
 // nothing unless the package is built with the "verif" tag.
 func verifPoint(point, name string, ep *endpointClient) {}
+
+// verifPointTr marks a schedule point inside a transport; it does nothing
+// unless the package is built with the "verif" tag.
+func verifPointTr(point string, tr *transport) {}
